@@ -1,8 +1,8 @@
 (* SymCoreEventsOrder.v -- children before parents: the targets are notified in descending KeyPath order.
    Python's sorted() is modelled by an insertion sort, which is only meaningful where the comparison of keys
    (KeyPath._KeyComparisonWrapper: two ints as ints, anything else as strings) is a consistent order.  It is one on
-   "simple" keys: list / int keys 0..9 and string keys that do not start with a digit or a sign (every key the
-   generators use): there the comparison is the lexicographic order of the key texts. *)
+   "simple" keys: every int key (list indices of any size) and every string key that does not start with a digit or a
+   minus sign: there the comparison is "by the first character of the text, then ints as ints and strings as strings". *)
 From PG Require Import Common.Tactics Model.SymCoreDefs Model.SymCoreOps Model.SymCoreEvents Proofs.SymCoreBase
      Proofs.SymCoreEventsDeliver Proofs.SymCoreEventsBase Proofs.SymCoreEventsStep.
 From Coq Require Import NArith Permutation.
@@ -43,81 +43,157 @@ Proof.
 Qed.
 
 (* --- simple keys ---------------------------------------------------------------------------------------------------------- *)
+(* ANY int key (list indices of any size, negative ints as dict keys) and any string key that does not start with a digit or a
+   minus sign.  (A string key that looks like a number breaks the order: 9 < 10 as ints, 10 < "5" and "5" < 9 as texts.) *)
 Definition simple_key (k : key) : Prop :=
   match k with
-  | KI z => 0 <= z <= 9
-  | KS s => match s with [] => True | c :: _ => (57 < c)%N end
+  | KI _ => True
+  | KS [] => True
+  | KS (c :: _) => c <> 45%N /\ ((c < 48)%N \/ (57 < c)%N)
   end.
-Lemma z_str_digit : forall z, 0 <= z <= 9 -> z_str z = [(48 + Z.to_N z)%N].
+(* the text of an int starts with '-' or with a digit *)
+Lemma pos_digits_S : forall f n acc,
+  pos_digits (S f) n acc =
+  (if N.eqb (N.div n 10) 0 then (48 + N.modulo n 10)%N :: acc else pos_digits f (N.div n 10) ((48 + N.modulo n 10)%N :: acc)).
+Proof. reflexivity. Qed.
+Lemma pos_digits_head : forall f n c acc, (48 <= c <= 57)%N -> exists c' r, pos_digits f n (c :: acc) = c' :: r /\ (48 <= c' <= 57)%N.
 Proof.
-  intros. assert (z = 0 \/ z = 1 \/ z = 2 \/ z = 3 \/ z = 4 \/ z = 5 \/ z = 6 \/ z = 7 \/ z = 8 \/ z = 9) by lia.
-  intuition; subst; reflexivity.
+  induction f; intros. simpl. eauto.
+  rewrite pos_digits_S. destruct (N.eqb (N.div n 10) 0).
+  - do 2 eexists. split. reflexivity. pose proof (N.mod_upper_bound n 10). lia.
+  - apply IHf. pose proof (N.mod_upper_bound n 10). lia.
 Qed.
-Lemma digit_ltb : forall x y, 0 <= x <= 9 -> 0 <= y <= 9 ->
-  str_ltb [(48 + Z.to_N x)%N] [(48 + Z.to_N y)%N] = Z.ltb x y.
+Lemma pos_digits_head0 : forall n, exists c r, pos_digits 40 n [] = c :: r /\ (48 <= c <= 57)%N.
 Proof.
-  intros. cbn [str_ltb].
-  destruct (N.eqb (48 + Z.to_N x) (48 + Z.to_N y)) eqn:E.
-  - apply N.eqb_eq in E. symmetry. apply Z.ltb_ge. lia.
-  - apply N.eqb_neq in E. destruct (Z.ltb x y) eqn:L.
-    + apply Z.ltb_lt in L. apply N.ltb_lt. lia.
-    + apply Z.ltb_ge in L. apply N.ltb_ge. lia.
+  intros. change 40%nat with (S 39). rewrite pos_digits_S. destruct (N.eqb (N.div n 10) 0).
+  - do 2 eexists. split. reflexivity. pose proof (N.mod_upper_bound n 10). lia.
+  - apply pos_digits_head. pose proof (N.mod_upper_bound n 10). lia.
 Qed.
-Lemma digit_eqb : forall x y, 0 <= x <= 9 -> 0 <= y <= 9 ->
-  list_eqb N.eqb [(48 + Z.to_N x)%N] [(48 + Z.to_N y)%N] = Z.eqb x y.
+Lemma z_str_head : forall z, exists c r, z_str z = c :: r /\ (if z <? 0 then c = 45%N else (48 <= c <= 57)%N).
 Proof.
-  intros. cbn [list_eqb]. rewrite andb_true_r.
-  destruct (Z.eqb x y) eqn:E.
-  - apply Z.eqb_eq in E. subst. apply N.eqb_refl.
-  - apply Z.eqb_neq in E. apply N.eqb_neq. lia.
+  intros. unfold z_str. destruct (z <? 0). do 2 eexists; split; reflexivity.
+  apply pos_digits_head0.
 Qed.
-Lemma simple_ltb : forall a b, simple_key a -> simple_key b -> kw_ltb a b = str_ltb (key_str a) (key_str b).
+(* the comparison of two simple keys: first by class (the first character of the text; all non-negative ints in one class), then inside
+   the class -- ints as ints, strings as strings *)
+Definition cls (k : key) : N :=
+  match k with KI x => if x <? 0 then 45%N else 48%N | KS [] => 0%N | KS (c :: _) => c end.
+Definition inner (a b : key) : bool :=
+  match a, b with KI x, KI y => x <? y | KS s, KS t => str_ltb s t | _, _ => false end.
+Definition klt (a b : key) : bool := N.ltb (cls a) (cls b) || (N.eqb (cls a) (cls b) && inner a b).
+Lemma simple_ltb : forall a b, simple_key a -> simple_key b -> kw_ltb a b = klt a b.
 Proof.
-  intros [s|x] [t|y] SA SB; unfold kw_ltb, key_str; auto.
-  unfold simple_key in *. rewrite !z_str_digit by auto. symmetry. apply digit_ltb; auto.
+  intros [s|x] [t|y] SA SB; unfold kw_ltb, klt, key_str, cls, inner.
+  - destruct s as [|c s], t as [|d t]; cbn [str_ltb]; auto.
+    + destruct (N.ltb 0 d) eqn:L; simpl; auto. apply N.ltb_ge in L. assert (d = 0%N) by lia. subst. reflexivity.
+    + destruct (N.ltb c 0) eqn:L. apply N.ltb_lt in L. lia. simpl. rewrite andb_false_r. auto.
+    + destruct (N.eqb c d) eqn:E; simpl.
+      * apply N.eqb_eq in E. subst. rewrite N.ltb_irrefl. auto.
+      * rewrite orb_false_r. auto.
+  - destruct (z_str_head y) as (h & r & E & H). rewrite E. rewrite andb_false_r, orb_false_r.
+    destruct s as [|c s]; cbn [str_ltb].
+    + symmetry. apply N.ltb_lt. destruct (y <? 0); lia.
+    + simpl in SA. destruct (N.eqb c h) eqn:Q. { apply N.eqb_eq in Q. destruct (y <? 0); lia. }
+      destruct (y <? 0). subst. auto.
+      destruct (N.ltb c h) eqn:L1, (N.ltb c 48) eqn:L2; auto;
+        try apply N.ltb_lt in L1; try apply N.ltb_lt in L2; try apply N.ltb_ge in L1; try apply N.ltb_ge in L2; lia.
+  - destruct (z_str_head x) as (h & r & E & H). rewrite E. rewrite andb_false_r, orb_false_r.
+    destruct t as [|d t]; cbn [str_ltb].
+    + symmetry. apply N.ltb_ge. lia.
+    + simpl in SB. destruct (N.eqb h d) eqn:Q. { apply N.eqb_eq in Q. destruct (x <? 0); lia. }
+      destruct (x <? 0). subst. auto.
+      destruct (N.ltb h d) eqn:L1, (N.ltb 48 d) eqn:L2; auto;
+        try apply N.ltb_lt in L1; try apply N.ltb_lt in L2; try apply N.ltb_ge in L1; try apply N.ltb_ge in L2; lia.
+  - destruct (x <? 0) eqn:X, (y <? 0) eqn:Y; simpl; try rewrite N.eqb_refl; simpl; auto.
+    + apply Z.ltb_lt in X. apply Z.ltb_ge in Y. apply Z.ltb_lt. lia.
+    + apply Z.ltb_lt in Y. apply Z.ltb_ge in X. apply Z.ltb_ge. lia.
 Qed.
-Lemma simple_eqb : forall a b, simple_key a -> simple_key b -> kw_eqb a b = list_eqb N.eqb (key_str a) (key_str b).
+Lemma simple_eqb : forall a b, simple_key a -> simple_key b -> kw_eqb a b = true -> a = b.
 Proof.
-  intros [s|x] [t|y] SA SB; unfold kw_eqb, key_str; auto.
-  unfold simple_key in *. rewrite !z_str_digit by auto. symmetry. apply digit_eqb; auto.
+  intros [s|x] [t|y] SA SB; unfold kw_eqb, key_str; intros H.
+  - apply str_eqb_eq in H. subst. auto.
+  - destruct (z_str_head y) as (h & r & E & HH). rewrite E in H. destruct s as [|c s]; simpl in H. discriminate.
+    simpl in SA. apply andb_prop in H. destruct H as [H _]. apply N.eqb_eq in H. destruct (y <? 0); lia.
+  - destruct (z_str_head x) as (h & r & E & HH). rewrite E in H. destruct t as [|d t]; simpl in H. discriminate.
+    simpl in SB. apply andb_prop in H. destruct H as [H _]. apply N.eqb_eq in H. destruct (x <? 0); lia.
+  - apply Z.eqb_eq in H. subst. auto.
 Qed.
+Lemma cls_mixed : forall s x, simple_key (KS s) -> cls (KS s) <> cls (KI x).
+Proof. intros [|c s] x S; simpl in *; destruct (x <? 0); lia. Qed.
+Lemma klt_asym : forall a b, klt a b = true -> klt b a = false.
+Proof.
+  unfold klt. intros a b H. apply orb_prop in H. destruct H as [H|H].
+  - apply N.ltb_lt in H. destruct (N.ltb (cls b) (cls a)) eqn:L. apply N.ltb_lt in L. lia.
+    destruct (N.eqb (cls b) (cls a)) eqn:E. apply N.eqb_eq in E. lia. auto.
+  - apply andb_prop in H. destruct H as [E I]. apply N.eqb_eq in E. rewrite E, N.ltb_irrefl, N.eqb_refl. simpl.
+    destruct a, b; simpl in *; try discriminate. apply str_ltb_asym; auto. apply Z.ltb_lt in I. apply Z.ltb_ge. lia.
+Qed.
+Lemma klt_negtrans : forall a b c, simple_key a -> simple_key b -> simple_key c ->
+  klt a c = true -> klt a b = true \/ klt b c = true.
+Proof.
+  unfold klt. intros a b c SA SB SC H.
+  destruct (N.ltb (cls a) (cls b)) eqn:L1; auto. destruct (N.ltb (cls b) (cls c)) eqn:L2; auto.
+  apply N.ltb_ge in L1. apply N.ltb_ge in L2. apply orb_prop in H. destruct H as [H|H]. { apply N.ltb_lt in H. lia. }
+  apply andb_prop in H. destruct H as [E I]. apply N.eqb_eq in E.
+  assert (E1 : cls a = cls b) by lia. assert (E2 : cls b = cls c) by lia.
+  rewrite E1, E2, !N.eqb_refl. simpl.
+  destruct a as [s|x], c as [u|z]; simpl in I; try discriminate.
+  - destruct b as [t|y]. apply str_ltb_negtrans; auto. exfalso. eapply cls_mixed; eauto.
+  - destruct b as [t|y]. exfalso. eapply (cls_mixed t x); eauto.
+    simpl. apply Z.ltb_lt in I. destruct (x <? y) eqn:Q; auto. right. apply Z.ltb_ge in Q. apply Z.ltb_lt. lia.
+Qed.
+Lemma klt_total : forall a b, simple_key a -> simple_key b -> klt a b = false -> klt b a = false -> a = b.
+Proof.
+  unfold klt. intros a b SA SB H1 H2.
+  apply orb_false_elim in H1. destruct H1 as [L1 I1]. apply orb_false_elim in H2. destruct H2 as [L2 I2].
+  apply N.ltb_ge in L1. apply N.ltb_ge in L2. assert (E : cls a = cls b) by lia.
+  rewrite E, N.eqb_refl in *. simpl in *.
+  destruct a as [s|x], b as [t|y]; simpl in *.
+  - f_equal. apply str_total; auto.
+  - exfalso. eapply cls_mixed; eauto.
+  - exfalso. eapply cls_mixed; eauto.
+  - f_equal. apply Z.ltb_ge in I1. apply Z.ltb_ge in I2. lia.
+Qed.
+Lemma klt_irrefl : forall a, klt a a = false.
+Proof.
+  intros. unfold klt. rewrite N.ltb_irrefl, N.eqb_refl. simpl. destruct a; simpl. apply str_ltb_irrefl. apply Z.ltb_irrefl.
+Qed.
+Lemma kw_eqb_refl : forall k, kw_eqb k k = true.
+Proof. destruct k; simpl. apply list_eqb_refl. apply N.eqb_refl. apply Z.eqb_refl. Qed.
+Lemma simple_eqb_false : forall a b, simple_key a -> simple_key b -> kw_eqb a b = false -> a <> b.
+Proof. intros a b _ _ H E. subst. rewrite kw_eqb_refl in H. discriminate. Qed.
 
-(* --- paths of simple keys: lexicographic order of the key texts ------------------------------------------------------------ *)
+(* --- paths of simple keys ---------------------------------------------------------------------------------------------------- *)
 Definition simple_path (p : list key) : Prop := Forall simple_key p.
 Lemma path_ltb_asym : forall a b, simple_path a -> simple_path b -> path_ltb a b = true -> path_ltb b a = false.
 Proof.
   induction a; destruct b; cbn [path_ltb]; intros SA SB H; auto; try discriminate. inv SA. inv SB.
-  rewrite simple_eqb, simple_ltb in * by auto.
-  destruct (list_eqb N.eqb (key_str a) (key_str k)) eqn:E.
-  - apply str_eqb_eq in E. rewrite E. rewrite (proj2 (str_eqb_eq _ _) eq_refl). auto.
-  - destruct (list_eqb N.eqb (key_str k) (key_str a)) eqn:E2.
-    + apply str_eqb_eq in E2. rewrite E2 in E. rewrite (proj2 (str_eqb_eq _ _) eq_refl) in E. discriminate.
-    + apply str_ltb_asym; auto.
+  destruct (kw_eqb a k) eqn:E.
+  - apply simple_eqb in E; auto. subst. rewrite kw_eqb_refl. auto.
+  - destruct (kw_eqb k a) eqn:E2.
+    + apply simple_eqb in E2; auto. subst. rewrite kw_eqb_refl in E. discriminate.
+    + rewrite simple_ltb in * by auto. apply klt_asym; auto.
 Qed.
 Lemma path_ltb_negtrans : forall a b c, simple_path a -> simple_path b -> simple_path c ->
   path_ltb a c = true -> path_ltb a b = true \/ path_ltb b c = true.
 Proof.
   induction a; destruct b, c; cbn [path_ltb]; intros SA SB SC H; auto; try discriminate. inv SA. inv SB. inv SC.
-  rewrite (simple_eqb a k0), (simple_ltb a k0) in H by auto.
-  rewrite (simple_eqb a k), (simple_ltb a k), (simple_eqb k k0), (simple_ltb k k0) by auto.
-  destruct (list_eqb N.eqb (key_str a) (key_str k0)) eqn:E1.
-  - apply str_eqb_eq in E1. rewrite <- E1 in *.
-    destruct (list_eqb N.eqb (key_str a) (key_str k)) eqn:E2.
-    + apply str_eqb_eq in E2. rewrite <- E2. rewrite (proj2 (str_eqb_eq _ _) eq_refl). eauto.
-    + assert (E3 : list_eqb N.eqb (key_str k) (key_str a) = false).
-      { destruct (list_eqb N.eqb (key_str k) (key_str a)) eqn:X; auto. apply str_eqb_eq in X. rewrite X in E2.
-        rewrite (proj2 (str_eqb_eq _ _) eq_refl) in E2. discriminate. }
-      rewrite E3. destruct (str_ltb (key_str a) (key_str k)) eqn:L; auto. right.
-      destruct (str_ltb (key_str k) (key_str a)) eqn:L2; auto.
-      apply str_total in L; auto. rewrite L in E2. rewrite (proj2 (str_eqb_eq _ _) eq_refl) in E2. discriminate.
-  - destruct (list_eqb N.eqb (key_str a) (key_str k)) eqn:E2.
-    + apply str_eqb_eq in E2. rewrite <- E2. rewrite E1. auto.
-    + destruct (list_eqb N.eqb (key_str k) (key_str k0)) eqn:E3.
-      * apply str_eqb_eq in E3. rewrite <- E3 in H. auto.
-      * apply str_ltb_negtrans; auto.
+  rewrite (simple_ltb a k0) in H by auto. rewrite (simple_ltb a k), (simple_ltb k k0) by auto.
+  destruct (kw_eqb a k0) eqn:E1.
+  - apply simple_eqb in E1; auto. subst k0.
+    destruct (kw_eqb a k) eqn:E2.
+    + apply simple_eqb in E2; auto. subst k. rewrite kw_eqb_refl. eauto.
+    + assert (E3 : kw_eqb k a = false).
+      { destruct (kw_eqb k a) eqn:X; auto. apply simple_eqb in X; auto. subst. rewrite kw_eqb_refl in E2. discriminate. }
+      rewrite E3. destruct (klt a k) eqn:L; auto. right.
+      destruct (klt k a) eqn:L2; auto.
+      exfalso. apply (simple_eqb_false a k); auto. apply klt_total; auto.
+  - destruct (kw_eqb a k) eqn:E2.
+    + apply simple_eqb in E2; auto. subst k. rewrite E1. auto.
+    + destruct (kw_eqb k k0) eqn:E3.
+      * apply simple_eqb in E3; auto. subst k0. auto.
+      * apply klt_negtrans; auto.
 Qed.
-Lemma kw_eqb_refl : forall k, kw_eqb k k = true.
-Proof. destruct k; simpl. apply list_eqb_refl. apply N.eqb_refl. apply Z.eqb_refl. Qed.
 (* a path is smaller than its extensions and never smaller than its prefixes (any keys) *)
 Lemma prefix_ltb : forall p k q, path_ltb p (p ++ k :: q) = true.
 Proof. induction p; simpl; intros; auto. rewrite kw_eqb_refl. auto. Qed.
